@@ -295,6 +295,45 @@ example : (eval { pred := fun _ _ => true, clock := fun _ => 0 } (.leaf 0 true (
     (eval { pred := fun _ _ => true, clock := fun _ => 0 } (.leaf 0 true (.pred 0)) (poll { pred := fun _ _ => true, clock := fun _ => 0 } (.leaf 0 true (.pred 0)) {})).1 = true := by
   decide
 
+/-! ### the polled form, every thread interleaving
+
+`PState.step` (Model/Ptc.lean) has one step per shared-memory action: the poller's `check` of the stop
+flags, its `call` of the predicate, its `store` of the returned value, and `terminate` / `eval` /
+`destroy` from other threads.  A list of steps is an interleaving; `results` records for every
+evaluation whether `terminate()` had been requested before it (`req`) and what it answered. -/
+
+/-- the step machine's `eval` is the tree model's `eval` of a polled leaf: `terminate_ || evalValue_` -/
+theorem polled_eval_eq (env : Env) (i : Nat) (k : Leaf) (s : St) :
+    (eval env (.leaf i true k) s).1 = (s.term i || s.cache i) := by
+  simp only [eval]
+  cases h : s.term i <;> simp
+
+/-- **for EVERY interleaving** of poller steps (check / call predicate / store), `terminate()`,
+evaluations and destruction, from the initial state, for every predicate trace: every evaluation
+made after a `terminate()` request answers true - in particular when `terminate()` lands between the
+poller's call of the predicate and the store of a `false` result. -/
+theorem polled_terminate_sticky_all_interleavings (pred : Nat → Bool) (steps : List PStep) :
+    ∀ p ∈ (PState.run .asCoded pred {} steps).results, p.1 = true → p.2 = true :=
+  (pinv_run pred steps {} ⟨fun h => by simp at h, fun p hp => by simp at hp⟩).2
+
+/-- the same from any state in which no terminate is pending unseen (e.g. any reachable state) -/
+theorem polled_terminate_sticky_from (pred : Nat → Bool) (steps : List PStep) (s : PState) (h : PInv s) :
+    ∀ p ∈ (s.run .asCoded pred steps).results, p.1 = true → p.2 = true :=
+  (pinv_run pred steps s h).2
+
+/-- the variant whose `eval` reads only the cache (and whose `terminate` writes the cache) is NOT
+sticky: the poller calls the predicate (false), `terminate()` arrives, the poller stores its stale
+`false`, sees the flag and exits; the evaluation after the request answers false, for ever. -/
+theorem polled_cache_only_loses_terminate :
+    ∃ (pred : Nat → Bool) (steps : List PStep),
+      (true, false) ∈ (PState.run .cacheOnly pred {} steps).results ∧
+      (PState.run .cacheOnly pred {} steps).pc = .done := by
+  refine ⟨fun _ => false, [.check, .call, .terminate, .store, .check, .eval], ?_, ?_⟩ <;> decide
+
+-- the same interleaving on the code as it is answers true
+example : (PState.run .asCoded (fun _ => false) {} [.check, .call, .terminate, .store, .check, .eval]).results =
+    [(true, true)] := by decide
+
 /-! ### the exact-solution condition -/
 
 /-- mirrors the problem definition: true iff it holds a solution that is not approximate -/
